@@ -24,6 +24,50 @@ pub use vls_protocol::msgs::DebugTxoProof;
 pub use vls_protocol::psbt::{PsbtWrapper, StreamedPSBT};
 pub use vls_protocol::serde_bolt::{Array, ArrayBE, LargeOctets, Octets, WireString, WithSize};
 
+/// the largest message the protocol carries
+pub const MAX_MESSAGE: usize = 128 * 1024;
+
+thread_local! {
+    /// length of the filler of the "fill the message up to the maximum size" variants, set by the
+    /// case runner (two passes: measure with 0, then fill)
+    static FILL_LEN: std::cell::Cell<usize> = std::cell::Cell::new(0);
+    static FILL_USED: std::cell::Cell<bool> = std::cell::Cell::new(false);
+}
+
+fn fill_len() -> usize {
+    FILL_USED.with(|u| u.set(true));
+    FILL_LEN.with(|l| l.get())
+}
+
+/// Run one case; if it contains a filler variant, size the filler so that the whole message is
+/// exactly `MAX_MESSAGE` bytes long.
+pub fn run_case_sized(check: fn(&[usize]) -> CaseOut, sel: &[usize]) -> CaseOut {
+    FILL_LEN.with(|l| l.set(0));
+    FILL_USED.with(|u| u.set(false));
+    let mut o = check(sel);
+    if !FILL_USED.with(|u| u.get()) {
+        return o;
+    }
+    let mut fill = 0usize;
+    for _ in 0..6 {
+        if o.len == MAX_MESSAGE {
+            break;
+        }
+        let next = fill as i64 + (MAX_MESSAGE as i64 - o.len as i64);
+        if next < 0 {
+            break;
+        }
+        fill = next as usize;
+        FILL_LEN.with(|l| l.set(fill));
+        o = check(sel);
+    }
+    if o.len == MAX_MESSAGE {
+        o.observations.push("exactly-maximum-size".into());
+    }
+    FILL_LEN.with(|l| l.set(0));
+    o
+}
+
 pub struct TypeInfo {
     pub name: &'static str,
     pub id: u16,
@@ -225,14 +269,16 @@ impl Alph for Octets {
 
 impl Alph for LargeOctets {
     fn n() -> usize {
-        4
+        5
     }
     fn pick(i: usize, pos: usize) -> Self {
         LargeOctets(match i {
             0 => pattern(5 + pos % 5, pos, 11),
             1 => vec![],
             2 => vec![0x2a],
-            _ => pattern(70_000, pos, 2),
+            3 => pattern(70_000, pos, 2),
+            // fills the message up to the maximum size
+            _ => pattern(fill_len(), pos, 3),
         })
     }
 }
@@ -453,9 +499,17 @@ fn sample_tx(kind: usize, pos: usize) -> Transaction {
 
 impl Alph for WithSize<Transaction> {
     fn n() -> usize {
-        3
+        4
     }
     fn pick(i: usize, pos: usize) -> Self {
+        if i == 3 {
+            // a data output that fills the message up to the maximum size
+            let mut tx = sample_tx(0, pos);
+            let mut script = vec![0x6a];
+            script.extend(pattern(fill_len(), pos, 5));
+            tx.output.push(TxOut { value: Amount::from_sat(0), script_pubkey: ScriptBuf::from_bytes(script) });
+            return WithSize(tx);
+        }
         WithSize(sample_tx(i, pos))
     }
 }
@@ -549,7 +603,7 @@ pub fn psbt_padded(kinds: &[InK], rich: bool, pad: usize) -> Psbt {
 
 impl Alph for WithSize<PsbtWrapper> {
     fn n() -> usize {
-        5
+        6
     }
     fn pick(i: usize, pos: usize) -> Self {
         let _ = pos;
@@ -559,7 +613,9 @@ impl Alph for WithSize<PsbtWrapper> {
             2 => psbt_with(&[InK::NwuSegwit, InK::NwuLegacy], false),
             3 => psbt_with(&[InK::WutxoOnly, InK::NwuSegwitAndWutxo], true),
             // larger than 64 KiB
-            _ => psbt_padded(&[InK::NwuSegwit], false, BIG_PAD),
+            4 => psbt_padded(&[InK::NwuSegwit], false, BIG_PAD),
+            // an unknown key-value pair that fills the message up to the maximum size
+            _ => psbt_filled(&[InK::WutxoOnly]),
         };
         WithSize(PsbtWrapper { inner: p })
     }
@@ -588,6 +644,13 @@ pub fn streamed_variants() -> Vec<(Vec<InK>, bool)> {
     v
 }
 
+/// a PSBT with an unknown global key whose value fills the message up to the maximum size
+fn psbt_filled(kinds: &[InK]) -> Psbt {
+    let mut p = psbt_with(kinds, false);
+    p.unknown.insert(lightning_signer::bitcoin::psbt::raw::Key { type_value: 0xf0, key: vec![1] }, pattern(fill_len(), 0, 7));
+    p
+}
+
 /// index (one past the ordinary variants) of the streamed PSBT that is larger than 64 KiB
 fn streamed_big() -> (Vec<InK>, bool) {
     (vec![InK::NwuSegwit, InK::WutxoOnly], false)
@@ -595,11 +658,14 @@ fn streamed_big() -> (Vec<InK>, bool) {
 
 impl Alph for WithSize<StreamedPSBT> {
     fn n() -> usize {
-        streamed_variants().len() + 1
+        streamed_variants().len() + 2
     }
     fn pick(i: usize, pos: usize) -> Self {
         let _ = pos;
         let vs = streamed_variants();
+        if i == vs.len() + 1 {
+            return WithSize(StreamedPSBT::new(psbt_filled(&[InK::WutxoOnly, InK::NwuSegwit])));
+        }
         if i >= vs.len() {
             let (k, rich) = streamed_big();
             return WithSize(StreamedPSBT::new(psbt_padded(&k, rich, BIG_PAD)));
@@ -690,7 +756,7 @@ pub fn main(tier: Tier) -> i32 {
     }
     let results = par_map(&cases, nthreads(), |(ti, sel)| {
         let t = &reg[*ti];
-        match catch(|| (t.check)(sel)) {
+        match catch(|| run_case_sized(t.check, sel)) {
             Ok(o) => (o.failures, o.oversize, o.observations, o.len, None),
             Err(p) => (vec![], false, vec![], 0, Some(p)),
         }
@@ -779,8 +845,8 @@ pub fn replay(v: &serde_json::Value) {
     let sel: Vec<usize> = serde_json::from_value(v["replay"]["sel"].clone()).unwrap_or_default();
     for t in reg.iter().filter(|t| t.name == name) {
         for round in 0..2 {
-            let o = (t.check)(&sel);
-            println!("round {}: {} {:?}: failures {:?}", round, t.name, sel, o.failures);
+            let o = run_case_sized(t.check, &sel);
+            println!("round {}: {} {:?} ({} bytes): failures {:?}", round, t.name, sel, o.len, o.failures);
         }
     }
 }
